@@ -73,6 +73,11 @@ func (s *supervisor) runChild(job Job, id int) (res []RunRes, inflight int, done
 		ev.Fatal("write job: %v", err)
 	}
 	cmd := osexec.Command(os.Args[0], "-child", jf, "-out", of, "-tier", s.r.Tier)
+	// 16 children share the cores: 4 threads each keep real parallelism inside
+	// the system under test and halve the scheduler/GC overhead per run.
+	if os.Getenv("GOMAXPROCS") == "" {
+		cmd.Env = append(os.Environ(), "GOMAXPROCS=4")
+	}
 	var eb strings.Builder
 	cmd.Stderr = &limitedWriter{b: &eb, max: 1 << 15}
 	cmd.Stdout = cmd.Stderr
